@@ -118,7 +118,14 @@ def _is_poison(arr: numpy.ndarray) -> bool:
 
 
 def digest(obj) -> str:
-    """Digest of everything C17 promises stays unchanged."""
+    """Digest of everything C17 promises stays unchanged (total: an object that cannot be read has a fixed digest)."""
+    try:
+        return _digest(obj)
+    except Exception:  # noqa: BLE001 - a malformed object must not stop the recording
+        return "undigestable"
+
+
+def _digest(obj) -> str:
     h = hashlib.sha1()
     import numpoly
     if isinstance(obj, numpoly.ndpoly):
@@ -214,6 +221,16 @@ def project_exception(exc: BaseException) -> dict:
 
 
 def project(v) -> dict:
+    """Total: an object the projection cannot read (a malformed result of a broken library) is logged as opaque,
+    which no judgment of the specification accepts where a polynomial or array is due."""
+    try:
+        return _project(v)
+    except Exception as exc:  # noqa: BLE001
+        return {"kind": "opaque", "pytype": type(v).__name__, "text": ("unprojectable: %r" % (exc,))[:200],
+                "carrier": "malformed", "digest": "undigestable", "poison": False}
+
+
+def _project(v) -> dict:
     import numpoly
     if isinstance(v, numpoly.ndpoly):
         return project_poly(v)
